@@ -1,6 +1,7 @@
 import Srctools.Gen.VmfKeys
 import Srctools.Proofs.C06
 import Srctools.Proofs.C06Text
+import Srctools.Proofs.C06Hist
 import Srctools.Props.C01
 /-!
 # C06 — VMF export/parse round trip is a fixed point and loses no map content
@@ -321,6 +322,50 @@ theorem C06_viewport (title : String) (is0 : Bool) (d : Nat) (v : View) (h : Vie
 /-- Integer fields: `int(str(i)) = i`. -/
 theorem C06_int_roundtrip (i : Int) : parseInt? (showInt i) = some i := parseInt_showInt i
 
+/-! ### Histories on one live object
+
+The map object is exported many times in its life with in-place edits in between.  In the model an
+edit is a function on the map VALUE and an export returns `exportTree` of the current value and
+leaves `afterExport` (what `VMF.export` itself assigns: `map_ver`, worldspawn's `classname` /
+`mapversion`, `active_cam`).  So every export of a history is `exportTree` of the value at that time —
+nothing an earlier export or `str()` computed can show.  For the CODE this is established by the
+tie (histories on live objects: after every export the text is compared with `exportText` of a fresh
+dump, the dump after the export with `afterExport`); a text cached inside an object and not
+invalidated by an in-place edit shows up there as a disagreement and a failing history. -/
+
+/-- **Exports depend on the current value only.** After any history `h` on `m`, an export writes
+`exportTree o` of the value the history produced, and the trees written earlier are unchanged. -/
+theorem C06_export_pure (m : VMap) (h : List HOp) (o : ExportOpts) :
+    (runHist m (h ++ [.exp o])).2 = (runHist m h).2 ++ [exportTree o (valueAfter m h)] ∧
+    (runHist m (h ++ [.exp o])).1 = afterExport o (valueAfter m h) := by
+  rw [runHist_append]
+  simp only [runHist, runHist_value, and_self]
+
+/-- All exports of a history at once. -/
+theorem C06_history_exports (m : VMap) (h : List HOp) :
+    (runHist m h).2 = (histPoints m h).map (fun p => exportTree p.1 p.2) := runHist_trees m h
+
+/-- **Exporting again changes nothing**: what `export` leaves on the object does not show in the next
+export (same options, no further version increment). The hypotheses on worldspawn — it has a
+`classname`, no `mapversion` key — hold after every export (`C06_after_export_spawn`; a `mapversion`
+key spelled differently by the user is respelled by the first export, as coded). -/
+theorem C06_export_again (o : ExportOpts) (m : VMap)
+    (hd : KeysDistinct m.spawn.keys)
+    (hnm : ∀ kv ∈ m.spawn.keys, lower kv.1 ≠ lower (lit "mapversion"))
+    (hcn : m.spawn.keys.any (fun kv => lower kv.1 == lower (lit "classname")) = true) :
+    exportTree { o with incVersion := false } (afterExport o m) = exportTree o m :=
+  exportTree_afterExport o m hd hnm hcn
+
+theorem C06_after_export_spawn (o : ExportOpts) (m : VMap) :
+    (∀ kv ∈ (afterExport o m).spawn.keys, lower kv.1 ≠ lower (lit "mapversion")) ∧
+    (afterExport o m).spawn.keys.any (fun kv => lower kv.1 == lower (lit "classname")) = true := by
+  refine ⟨afterExport_spawn o m, ?_⟩
+  obtain ⟨kv, hm, hk, _⟩ := entSetKey_has
+    (entSetKey m.spawn.keys (lit "mapversion") (showInt (exportedVer o m))) (lit "classname") (lit "worldspawn")
+  simp only [afterExport, spawnKeysAfter, entDelKey, spawnForExport, List.any_eq_true, List.mem_filter, beq_iff_eq]
+  refine ⟨kv, ⟨hm, ?_⟩, hk⟩
+  rw [hk]; decide
+
 /-! ### Non-vacuity: a map with hidden objects, a brush entity, outputs of both separator kinds,
 an `instance:` output, fixups, nested visgroups, a group, Strata viewports with zeros, a camera and
 a cordon satisfies the hypotheses. -/
@@ -450,5 +495,19 @@ example : IdsInjective (assignIds false { exMap with ents := [exEnt, exEnt, exEn
 example : parseTree true (exportTree { minimal := false, multiblend := true, incVersion := true } exMap)
     = .ok (project { minimal := false, multiblend := true, incVersion := true } exMap) :=
   C06_tree_roundtrip _ _ exMap_ok exMap_ids
+
+/-- a history: export, move a face's texture offset in place, export again — the second tree is the
+tree of the edited value, and its text differs from the first -/
+def exShift (m : VMap) : VMap :=
+  { m with ents := m.ents.map (fun e => { e with solids := e.solids.map (fun s =>
+      { s with sides := s.sides.map (fun f => { f with uaxis := { f.uaxis with offset := lit "99" } }) }) }) }
+
+example : (runHist exMap [.exp {}, .edit exShift, .exp {}]).2 =
+    [exportTree {} exMap, exportTree {} (exShift (afterExport {} exMap))] := rfl
+
+example : exportText {} (exShift (afterExport {} exMap)) ≠ exportText {} (afterExport {} exMap) := by decide +kernel
+
+example : exportTree { incVersion := false } (afterExport {} (afterExport {} exMap)) = exportTree {} (afterExport {} exMap) :=
+  C06_export_again {} _ (by unfold KeysDistinct; decide) (C06_after_export_spawn _ _).1 (C06_after_export_spawn _ _).2
 
 end C06
